@@ -6,6 +6,12 @@ cache hit detected the condition is the user's, default "store everything").
 
 The store step sits in the `else:` branch of the `try`, OUTSIDE `except exceptions`: whatever it raises — listed
 or not — leaves the wrapper as it is, and the stored result is neither consulted nor changed.
+
+Order in time: `_wrap` computes the key and goes straight into `await func(...)`; the store is touched only AFTER the
+function has finished — the fallback `backend.get` inside the `except` handler, the `backend.set` in the `else:`
+branch.  A call whose function body takes `d` ticks therefore does everything `d` ticks after it began
+(`call = afterExec` on the advanced clock): the fallback is looked up — and its age judged — at the moment of the
+failure, not when the call started.
 -/
 namespace CashewsVerif.Decor.Fail
 
@@ -19,9 +25,10 @@ structure St where
 
 def init : St := { t := TtlMap.init, nexec := 0 }
 
-/-- `_wrap`: execute first; `except exceptions: cached = backend.get(key) …;
+/-- the part of `_wrap` that follows `await func(...)`, at the instant the function finished:
+`except exceptions: cached = backend.get(key) …;
 else: if condition(result, …): _ttl = ttl_to_seconds(ttl, …, result=result); backend.set(key, result, expire=_ttl); return result` -/
-def call (c : Cfg) (s : St) (o : Outcome) : St × CallOut :=
+def afterExec (c : Cfg) (s : St) (o : Outcome) : St × CallOut :=
   let id := s.nexec
   match o with
   | .ok => ({ t := s.t.write kMain (pack2 s.t.now id) (some c.ttl), nexec := id + 1 }, ⟨.fresh s.t.now id, true, false⟩)
@@ -35,8 +42,12 @@ def call (c : Cfg) (s : St) (o : Outcome) : St × CallOut :=
   -- the condition / the callable ttl / `backend.set` raises in the `else:` branch: it propagates
   | .storeFails _ l => ({ s with nexec := id + 1 }, ⟨.storeErr l, true, false⟩)
 
+/-- `_wrap`: `result = await func(*args, **kwargs)` comes first and takes `d` ticks; nothing is read before it -/
+def call (c : Cfg) (s : St) (o : Outcome) (d : Nat) : St × CallOut :=
+  afterExec c { s with t := advance s.t d } o
+
 def step (c : Cfg) (s : St) : DOp → St × Ans
-  | .call o => let r := call c s o; (r.1, .call r.2)
+  | .call o d => let r := call c s o d; (r.1, .call r.2)
   | .adv dt => ({ s with t := advance s.t dt }, .ok)
   | .done _ _ => (s, .done .noop)
 
